@@ -8,6 +8,14 @@ from .. import core, mcds, unf
 from ..unf import mask_of, members
 
 
+class Out(core.Outcome):
+    """Outcome keeping at most 2 violations per signature: a known finding must never crowd out another violation."""
+
+    def bad(self, sig, msg):
+        if sum(1 for v in self.violations if v.sig == sig) < 2:
+            super().bad(sig, msg)
+
+
 class C44(core.Prop):
     id = "C44"
     drivers = ["mcds_driver"]
@@ -125,7 +133,7 @@ class C44(core.Prop):
         return ref, canon, dev, q
 
     def check(self, case, allsets_max=9):
-        oc = core.Outcome()
+        oc = Out()
         oc.evals = 2
         specs = [e[0] for e in case["events"]]
         r0 = mcds.run_case({"mode": "deps", "syn": case["syn"], "ts": specs})
@@ -165,7 +173,7 @@ class C44(core.Prop):
                 oc.bad("unexpected-exception:" + qq[0], "query %s raised %s" % (qq, a["exc"]))
                 continue
             getattr(self, "q_" + qq[0])(oc, ref, qq, a)
-            if len(oc.violations) > 6:
+            if len(oc.violations) > 30:
                 break
         # labels
         used = members(ref.used)
@@ -266,10 +274,15 @@ class C44(core.Prop):
             e_uic = [j for j in used if j != i and ref.imm_conflict(i, j)]
             if b["uic"][i] != e_uic:
                 oc.bad("unfolding-immediate-conflicts", "Unfolding::get_immediate_conflicts_of(%d) = %s, expected %s" % (i, b["uic"][i], e_uic))
-            if len(oc.violations) > 6:
+            if len(oc.violations) > 30:
                 return
 
     # -----------------------------------------------------------------------------------------------------------------
+    @staticmethod
+    def red(ref, S):
+        """signature suffix: the set's closure holds an event whose immediate causes are redundant (a cause of a cause is listed too)"""
+        return ":redundant-causes" if ref.redundant_in(S) else ""
+
     def cfree_sig(self, ref, S):
         """signature suffix: are all the conflicts inside S of the 'inherited on both sides' kind?"""
         pairs = [(i, j) for i in members(S) for j in members(ref.conf[i] & S) if i < j]
@@ -296,7 +309,7 @@ class C44(core.Prop):
                 oc.bad("largest-maximal-subset", "%s.get_largest_maximal_subset() = %s, expected %s" % (members(S), members(a["lms"][mask]), members(ref.maximal(S))))
             if a["hall"][mask] != ref.closure(S):
                 oc.bad("history-all-events", "History(%s).get_all_events() = %s, expected %s" % (members(S), members(a["hall"][mask]), members(ref.closure(S))))
-            if len(oc.violations) > 6:
+            if len(oc.violations) > 30:
                 return
         self._seen.add("allsets=%d" % (1 << m))
 
@@ -347,15 +360,19 @@ class C44(core.Prop):
             oc.bad("conflicts-with-any" + (":inherited-on-both-sides" if both else ""),
                    "e.conflicts_with_any(%s) holds for %s, expected %s" % (nm, members(got_any), members(exp_any)))
         for key, rev in (("topo", False), ("rtopo", True)):
-            order = r[key]
-            seq = order[::-1] if rev else order
-            if sorted(order) != nm or not ref.respects_causality(seq):
-                oc.bad("topological-order", "%s.%s = %s is not a %sordering of the set compatible with causality"
-                       % (nm, "get_topological_ordering_of_reverse_graph()" if rev else "get_topological_ordering()", order, "reverse " if rev else ""))
+            self.check_order(oc, ref, S, r[key], rev, "%s.%s" % (nm, "get_topological_ordering_of_reverse_graph()" if rev else "get_topological_ordering()"))
         if not ref.closed(S):
             self._seen.add("set-not-closed")
         if ev and len(nm) >= 3:
             self._seen.add("set-config>=3")
+
+    def check_order(self, oc, ref, S, order, rev, what):
+        seq = order[::-1] if rev else list(order)
+        if len(set(seq)) != len(seq):
+            oc.bad("topological-order" + self.red(ref, S), "%s = %s lists an event twice" % (what, order))
+            seq = [e for k, e in enumerate(seq) if e not in seq[:k]]      # go on with the first occurrences
+        if sorted(seq) != members(S) or not ref.respects_causality(seq):
+            oc.bad("topological-order", "%s = %s is not a%s ordering of the set compatible with causality" % (what, order, " reverse" if rev else ""))
 
     def q_cfg(self, oc, ref, qq, a):
         S = mask_of(qq[1])
@@ -374,10 +391,7 @@ class C44(core.Prop):
             oc.bad("minimally-reproducible-events" + (":always-empty" if not a["mre"] else ""),
                    "Configuration(%s).get_minimally_reproducible_events() = %s, expected the maximal events %s" % (nm, a["mre"], members(ref.maximal(S))))
         for key, rev in (("topo", False), ("rtopo", True)):
-            order = a[key]
-            seq = order[::-1] if rev else order
-            if sorted(order) != nm or not ref.respects_causality(seq):
-                oc.bad("topological-order", "Configuration(%s) sorted %s = %s is not compatible with causality" % (nm, "(reverse)" if rev else "", order))
+            self.check_order(oc, ref, S, a[key], rev, "Configuration(%s).get_topologically_sorted_events%s()" % (nm, "_of_reverse_graph" if rev else ""))
         if mcds.bits(a["contains"]) & ref.used != S:
             oc.bad("configuration-contains", "Configuration(%s).contains(e) holds for %s" % (nm, members(mcds.bits(a["contains"]) & ref.used)))
         comp = mcds.bits(a["compat"])
@@ -416,7 +430,7 @@ class C44(core.Prop):
             if len(tops) > 1:
                 continue    # cannot happen in a configuration
             if li != exp or not ok:
-                oc.bad("latest-event-of-actor", "%s.get_latest_event_of(actor %d) = %d (action consistent: %s), expected %d" % (what, actor, li, ok, exp))
+                oc.bad("latest-event-of-actor" + (self.red(ref, S) if newest is None else ""), "%s.get_latest_event_of(actor %d) = %d (action consistent: %s), expected %d" % (what, actor, li, ok, exp))
         if newest is not None and st_["newest"] != newest:
             oc.bad("configuration-newest", "%s.get_latest_event() = %d, expected %d" % (what, st_["newest"], newest))
 
@@ -455,19 +469,22 @@ class C44(core.Prop):
         exp = ref.antichains(base, k, cap=20000)
         got = [mask_of(s) for s in a["sets"]]
         what = "maximal_subsets_iterator(%s %s, filter %s, max size %s)" % ("Configuration" if qq[4] else "EventSet", qq[1], qq[2], k)
+        # the iterator walks the topological ordering of the set: when that ordering lists an event twice (known finding, needs
+        # redundant immediate causes) whatever it yields is a consequence of that
+        sfx = ":ordering-duplicates" if len(set(a["rtopo"])) != len(a["rtopo"]) else ""
         if len(set(got)) != len(got):
             dup = next(s for s in got if got.count(s) > 1)
-            oc.bad("maximal-subsets-duplicate", "%s yields %s %d times" % (what, members(dup), got.count(dup)))
+            oc.bad("maximal-subsets%s:duplicate" % sfx, "%s yields %s %d times" % (what, members(dup), got.count(dup)))
             return
         spurious = [s for s in got if s not in set(exp)]
         if spurious:
             s = spurious[0]
             why = "not a subset of the filtered events" if s & ~base else "not maximal (an event causes another)" if not ref.antichain(s) else "too large"
-            oc.bad("maximal-subsets-spurious", "%s yields %s: %s" % (what, members(s), why))
+            oc.bad("maximal-subsets%s:spurious" % sfx, "%s yields %s: %s" % (what, members(s), why))
             return
         missing = [s for s in exp if s not in set(got)]
         if missing:
-            oc.bad("maximal-subsets-missing", "%s yields %d sets and never %s (%d expected)" % (what, len(got), members(missing[0]), len(exp)))
+            oc.bad("maximal-subsets%s:missing" % sfx, "%s yields %d sets and never %s (%d expected)" % (what, len(got), members(missing[0]), len(exp)))
             return
         self._seen.add("msi<=3" if len(exp) <= 3 else "msi<=30" if len(exp) <= 30 else "msi>30")
         if F is not None:
